@@ -208,3 +208,57 @@ def run(prog: Program, col: Collector, refs: Refs, cat: Catalogue, rule_log: str
             if ok:
                 col.ok(f"{f.fq}::{opname} NaN-free", f"{how}: no NaN on {text}", f.loc())
     col.cur.analysed["scenarios"] = n_scen
+
+
+# ------------------------------------------------------------------ R15.10 scalar / array agreement at special values
+_DOMAIN = {  # input classes inside the op's domain, per argument (default: all of the extended reals)
+    "log": [[ZERO, POS, "PINF"]], "log1p": [[ZERO, POS, "PINF"]], "sqrt": [[ZERO, POS, "PINF"]], "reciprocal": [[NEG, POS, "PINF", NINF]],
+    "truediv": [None, [NEG, POS, "PINF", NINF]], "safediv": [[NEG, ZERO, POS], [ZERO, POS]], "safesub": [sorted(LOGDOM), sorted(LOGDOM)],
+    "pow": [[ZERO, POS], [NEG, ZERO, POS]], "atanh": [[ZERO]], "logaddexp": [sorted(LOGDOM), sorted(LOGDOM)], "sample": [sorted(LOGDOM), sorted(LOGDOM)],
+}
+
+
+def run_agreement(prog: Program, col: Collector, refs: Refs, cat: Catalogue, rule: str = "R15.10"):
+    """'Inside its domain each op gives the same answer on a Python scalar and elementwise on arrays' - decided at the special
+    values: for every unary/binary op whose scalar and array implementations the interpreter can both follow, and every input
+    class combination of its domain on which neither raises, the two abstract results must have a class in common."""
+    col.rule(rule, "scalar and array implementations of an op agree at the special values (-inf, 0, +inf) of its domain", floor=3)
+    node = ast.parse("op(x)").body[0].value
+    allc = [NINF, NEG, ZERO, POS, "PINF"]
+    compared = 0
+    for fq, op in sorted(cat.ops.items()):
+        ar = cat.arity_of(fq)
+        if ar not in (1, 2):
+            continue
+        dom = _DOMAIN.get(op.name, [None] * ar)
+        dom = [(d if d is not None else allc) for d in (dom + [None] * ar)[:ar]]
+        for backend in BACKENDS:
+            if backend not in prog.modules:
+                continue
+            n_cmp, bad = 0, None
+            for combo in itertools.product(*dom):
+                res = {}
+                for arr in (False, True):
+                    it = Interp(prog, refs, cat, backend)
+                    try:
+                        v = it.call_op(node, op, [num({x}, arr) for x in combo], {}, 0)
+                    except RecursionError:
+                        v = V("opaque")
+                    res[arr] = (v, bool(it.raised))
+                (sv_, sr), (av_, ar_) = res[False], res[True]
+                if sv_.kind != "num" or av_.kind != "num" or sr or ar_:
+                    continue
+                n_cmp += 1
+                if not (sv_.cls & av_.cls) and bad is None:
+                    bad = (combo, sv_, av_)
+            if not n_cmp:
+                continue
+            compared += 1
+            construct = f"{op.fq}::scalar vs array [{backend.split('.')[1]}]"
+            if bad:
+                combo, sv_, av_ = bad
+                col.violation(construct, f"`{op.name}` on ({', '.join(combo)}): the scalar implementation gives {_fmt(sv_.cls)}, the array implementation gives {_fmt(av_.cls)}", op.module.loc(op.node))
+            else:
+                col.ok(construct, f"{n_cmp} input class combinations agree", op.module.loc(op.node))
+    col.cur.analysed["ops_compared"] = compared
+
